@@ -64,6 +64,20 @@ CHECKS = {
             'are sent with explicit qualifier flavors; no faults injected',
             'deterministic simulation: simulated transport + simulated '
             'server, differential oracle against a reference execution'),
+    'C02': ('wire', 'exploration',
+            'seeded search over operation programs x reply faults: the '
+            'plausible reply of the simulated server is damaged at transport '
+            '(refuse, reset, EOF, stall, fragments), HTTP (status, headers, '
+            'chunking, encodings), byte and CIM-XML structure level; every '
+            'call must return its documented result type or raise a '
+            'pywbem.Error, populate request/response data of parse errors '
+            'and terminate',
+            'the mutation vocabulary (derived from the DTD and the '
+            'attributes the parser converts) is sampled, not the whole byte '
+            'space; replies <= ~100 KiB; a 20 s real-time alarm per call '
+            'backs the termination clause',
+            'deterministic simulation: simulated transport with fault '
+            'injection on the reply stream, outcome-class oracle'),
 }
 
 ENGINES = [
